@@ -506,7 +506,7 @@ pub fn run(ctx: &RunCtx) -> i32 {
     let meta = CheckMeta {
         property: "C08",
         level: "fault_enumeration",
-        rule: "uploads (PutObject / UploadPart, 0..40 chunks of 1 B..64 KiB incl. equal-sized) encoded by the reference encoder; per upload every single fault is enumerated: bit flip in data / size field / signature of every chunk, hex-letter case flip in a signature, chunk resized, deleted, duplicated, swapped, spliced from another correctly signed upload, truncation at EVERY byte offset (small uploads) or at every token boundary +-1 (large ones), bytes after the final chunk, wrong or tampered x-amz-decoded-content-length; each under a framing drawn from {single body, one frame, chunk-aligned, 1-byte frames, splits inside tokens with Pending, random with Pending}. Expected outcome from a reference decoder applied to the faulty bytes. Transport-fault leg: the body fails in transit instead of frame k (io::Error kinds, wrapped, custom) - the backend's stream must end with an error after a prefix of the payload. A cell is (fault kind, position class, framing class, terminal state).".into(),
+        rule: "uploads (PutObject / UploadPart, 0..40 chunks of 1 B..64 KiB incl. equal-sized) encoded by the reference encoder; per upload every single fault is enumerated: bit flip in data / size field / signature of every chunk, hex-letter case flip in a signature, chunk resized, deleted, duplicated, swapped, spliced from another correctly signed upload, truncation at EVERY byte offset (small uploads) or at every token boundary +-1 (large ones), bytes after the final chunk, wrong or tampered x-amz-decoded-content-length; each under a framing drawn from {single body, one frame, chunk-aligned, 1-byte frames, splits inside tokens with Pending, random with Pending}. Expected outcome from a reference decoder applied to the faulty bytes. Overlap leg: 2..6 uploads of several signers (intact, corrupted chunk signature, a chunk of a neighbour's upload spliced in) in flight together on one service, chunks interleaved by Pending schedules; each delivered or refused exactly as when alone. Transport-fault leg: the body fails in transit instead of frame k (io::Error kinds, wrapped, custom) - the backend's stream must end with an error after a prefix of the payload. A cell is (fault kind, position class, framing class, terminal state).".into(),
         assumptions: vec![
             "a fault that leaves the encoding semantically identical is classified by re-decoding with the reference decoder, not assumed faulty".into(),
             "the recording backend drains the body to its end or first error; 'ends with an error' is observed there".into(),
@@ -542,6 +542,52 @@ pub fn run(ctx: &RunCtx) -> i32 {
             r.sample("upload", || json!({"uri": u.req.uri, "chunk_sizes": u.chunks.iter().map(Vec::len).collect::<Vec<_>>(), "encoded_len": u.req.body.len()}));
         }
     });
+    // overlap leg (DESIGN 9.2): 2..6 chunk-signed uploads of several signers in flight together on one service, intact ones
+    // and ones with a corrupted chunk signature / a chunk of another upload spliced in, each cut into frames with Pending
+    // schedules so that their chunks really interleave; each must be delivered (or refused) exactly as when alone
+    let over = par_run(ctx.workers, ctx.tier.sz(300, 10_000), |j, r| {
+        let rt = new_runtime();
+        let mut g = Rng::new(derive_seed(ctx.seed, "C08-overlap", j));
+        let prt = if j % 4 == 3 { Some(new_parallel_runtime(4)) } else { None };
+        let k = 2 + g.usize_below(5);
+        let ups: Vec<Upload> = (0..k).map(|_| { let small = g.chance(1, 2); gen_upload(&mut g, &secrets, small) }).collect();
+        let mut kinds = Vec::new();
+        let mut reqs = Vec::new();
+        for (i, u) in ups.iter().enumerate() {
+            let mut q = u.req.clone();
+            let mut kind = "aws-chunked/intact";
+            match g.below(5) {
+                0 if !u.metas.is_empty() => {
+                    let m = &u.metas[g.usize_below(u.metas.len())];
+                    q.body[m.sig_start + 5] ^= 1;
+                    kind = "aws-chunked/corrupted-chunk-signature";
+                }
+                1 if k > 1 => {
+                    // the first chunk of a neighbour's upload in place of this one's (another chain, possibly another signer)
+                    let o = &ups[(i + 1) % k];
+                    if let (Some(a), Some(b)) = (u.metas.first(), o.metas.first()) {
+                        let mut body = q.body[..a.start].to_vec();
+                        body.extend_from_slice(&o.req.body[b.start..b.data_end.min(o.req.body.len())]);
+                        body.extend_from_slice(&q.body[a.data_end.min(q.body.len())..]);
+                        q.body = body;
+                        kind = "aws-chunked/chunk-of-another-upload-spliced-in";
+                    }
+                }
+                _ => {}
+            }
+            let len = q.body.len();
+            let n = 1 + g.usize_below(6);
+            let mut cuts: Vec<usize> = (0..n).map(|_| g.usize_below(len / n + 2)).collect();
+            if g.chance(1, 3) {
+                cuts = vec![1; len.min(40)];
+            }
+            q.framing = Some(Framing { pendings: (0..=cuts.len() + 1).map(|_| g.below(3) as u8).collect(), cuts, pending_at_end: g.below(2) as u8, immediate_wake: g.chance(2, 3), error_at: None, stall_at: None, error_kind: None });
+            kinds.push(kind.to_owned());
+            reqs.push(q);
+        }
+        judge_overlap(r, "C08", &rt, prt.as_ref(), &auth_cfg(&secrets, HostCfg::None), &kinds, &reqs, g.u64());
+    });
+    total.merge(over);
     // transport faults (DESIGN 9.2): the body fails in transit instead of yielding frame k
     total.merge(crate::monitor::c09::transport_fault_leg(ctx, "C08", &["aws-chunked"], ctx.tier.sz(150, 6000)));
     finish(ctx, &meta, &total)
@@ -551,6 +597,9 @@ pub fn replay(v: &Value) -> i32 {
     let w = &v["witness"];
     if w["kind"] == "transport-fault" {
         return super::replay_verdict("C08", &crate::engine::replay_transport_fault("C08", w));
+    }
+    if w["kind"] == "overlap" {
+        return super::replay_verdict("C08", &replay_overlap("C08", w));
     }
     let mut r = Report::new();
     let rt = new_runtime();
